@@ -23,6 +23,13 @@ def unparse(e) -> str:
     return ast.unparse(e) if e is not None else ''
 
 
+def xsrc(fi) -> str:
+    """Source text of function fi with local aliases of attribute chains written out (cfg.expand_aliases): text patterns that
+    name attributes / parameters keep matching when a maintainer introduces or removes such aliases."""
+    from .cfg import expand_aliases
+    return ast.unparse(expand_aliases(fi).node)
+
+
 def calls_in(node, name=None):
     out = []
     for n in ast.walk(node):
